@@ -142,16 +142,20 @@ Theorem C10_setnx_success_clears_expiry : forall s ts k v,
 Proof. exact setnx_success_clears_expiry. Qed.
 Print Assumptions C10_setnx_success_clears_expiry.
 (* SETEX / *EXPIRE set ExpireAt = floor(ts / 1e9) + duration (in the uint32 range), *PERSIST clears it; generation kept *)
-Theorem C10_setex_sets_expiry : forall s ts k d v, 0 < d -> 0 <= d + sec ts < max_u32 - 1 ->
+Theorem C10_setex_sets_expiry : forall s ts k d v, 0 < d -> 0 < d + sec ts < max_u32 - 1 ->
   kv_get (fst (step Compact s ts (CSetEx k d v))) k = Some (mkH (d + sec ts) 0, v).
 Proof. exact setex_sets_expiry. Qed.
 Print Assumptions C10_setex_sets_expiry.
 Theorem C10_expire_sets_expiry : forall s ts t k d h, hdr_of s t k = Some h -> is_expired Compact h ts = false ->
-  0 <= d + sec ts < max_u32 - 1 ->
+  0 < d + sec ts < max_u32 - 1 ->
   hdr_of (fst (step Compact s ts (CExpire t k d))) t k = Some (mkH (d + sec ts) (h_ver h)) /\
   snd (step Compact s ts (CExpire t k d)) = RInt 1.
 Proof. exact expire_sets_expiry. Qed.
 Print Assumptions C10_expire_sets_expiry.
+(* a duration that ends at or before the epoch expires the key at once (second 1) instead of wrapping into the future *)
+Theorem C10_expire_in_the_past_is_immediate : forall ts d, sec ts + d <= 0 -> d <= 0 -> expire_when ts d = Some 1.
+Proof. exact expire_in_the_past_is_immediate. Qed.
+Print Assumptions C10_expire_in_the_past_is_immediate.
 Theorem C10_persist_clears_expiry : forall s ts t k h, hdr_of s t k = Some h -> is_expired Compact h ts = false ->
   hdr_of (fst (step Compact s ts (CPersist t k))) t k = Some (mkH 0 (h_ver h)) /\
   snd (step Compact s ts (CPersist t k)) = RInt 1.
